@@ -10,7 +10,7 @@ use crate::{
         ArmorOptions, SignedPublicKey,
     },
     crypto::hash::KnownDigest,
-    errors::{ensure, Result},
+    errors::Result,
     packet::{self, Packet, PacketTrait, SignatureType},
     ser::Serialize,
     types::{Imprint, Tag, VerifyingKey},
@@ -246,13 +246,7 @@ impl SignedSecretSubKey {
     where
         V: VerifyingKey + Serialize,
     {
-        ensure!(!self.signatures.is_empty(), "missing subkey bindings");
-
-        for sig in &self.signatures {
-            sig.verify_subkey_binding(key, self.key.public_key())?;
-        }
-
-        Ok(())
+        super::public::verify_subkey_bindings(key, self.key.public_key(), &self.signatures)
     }
 
     /// Drops the secret key material in this subkey.
